@@ -15,6 +15,7 @@ import types
 
 import py4hw
 from py4hw.base import Logic
+from mc import core
 
 
 class _ProxySystem(Logic):
@@ -92,6 +93,8 @@ def _extra_configs(tier):
         out.append({'block': 'TwinDifferentOptions', 'kind': 'Add', 'w': w})
         out.append({'block': 'TwinDifferentOptions', 'kind': 'Reg', 'w': w})
         out.append({'block': 'TwinDifferentOptions', 'kind': 'Abs', 'w': w})
+        for k in ('RegDW', 'LatchDW', 'BufEnableRW', 'SignRW'):
+            out.append({'block': 'TwinDifferentOptions', 'kind': k, 'w': w})
         out.append({'block': 'Fanout', 'w': w})
     for aw, dw in ([(1, 1), (1, 2), (2, 1), (2, 2)] if T else [(1, 1), (1, 2), (2, 1)]):
         out.append({'block': 'AsynchronousMemory', 'aw': aw, 'dw': dw})
@@ -136,6 +139,15 @@ def _inst(kind, parent, name, top, tag, w, ins, outs, opt=0):
         return P.Abs(parent, name, I('a'), O('r'))
     if kind == 'Counter':
         return P.Counter(parent, name, I('reset', 1), I('inc', 1), O('q'))
+    # same module name, different width of a port that is not part of the name
+    if kind == 'RegDW':
+        return P.Reg(parent, name, I('d', w + opt), O('q'))
+    if kind == 'LatchDW':
+        return P.Latch(parent, name, I('d', w + opt), O('q'), I('e', 1))
+    if kind == 'BufEnableRW':
+        return P.BufEnable(parent, name, I('a'), I('en', 1), O('r', w + opt))
+    if kind == 'SignRW':
+        return P.Sign(parent, name, I('a'), O('r', 1 + opt))
     raise ValueError(kind)
 
 
@@ -238,6 +250,72 @@ def _chain_second(kind, hw, I, O, m, w):
         raise ValueError(kind)
 
 
+# ------------------------------------------------------------------ twins by module name
+
+_TW = {}
+
+
+def twin_pairs(tier):
+    """pairs of catalogue configs whose DUT is emitted under the same (shared) module name"""
+    if tier in _TW:
+        return _TW[tier]
+    groups = {}
+    for s, c in configs('quick'):
+        try:
+            with core.quiet():
+                d = build(s, c, 'top')
+            dut = d.sys.children.get('dut')
+            if dut is None or not hasattr(dut, 'structureName'):
+                continue
+            nm = dut.structureName()
+        except Exception:
+            py4hw.Wire.prepared = []
+            continue
+        groups.setdefault(nm, []).append((s, c))
+    pairs = []
+    for nm, lst in sorted(groups.items()):
+        first = lst[0]
+        for other in lst[1:4]:
+            pairs.append((nm, first, other))
+    _TW[tier] = pairs
+    return pairs
+
+
+class _Prefixed(Logic):
+    def __init__(self, real, name):
+        super().__init__(real, name)
+        self.real = real
+        self.pfx = name + '_'
+
+    def wire(self, name, width=1):
+        return self.real.wire(self.pfx + name, width)
+
+    def getSimulator(self):
+        return self.real.getSimulator()
+
+
+def build_twin(a, b):
+    real = py4hw.HWSystem()
+    ins, outs = [], []
+    orig = py4hw.HWSystem
+    for tag, (s, c) in (('u0', a), ('u1', b)):
+        proxy = _Prefixed(real, tag)
+        py4hw.HWSystem = lambda *aa, **kk: proxy
+        try:
+            r = builder(s, c)()
+        finally:
+            py4hw.HWSystem = orig
+        d = _norm(r, real)
+        for n, w in d.ins:
+            proxy.addIn(n, w)
+        for n, w in d.outs:
+            proxy.addOut(n, w)
+        ins += d.ins
+        outs += d.outs
+    return real, ins, outs
+
+
+
 # ------------------------------------------------------------------ public API
 
 def configs(tier, small=False):
@@ -297,6 +375,8 @@ def builder(source, cfg):
         return lambda: c14.build(cfg)
     if source == 'extra':
         return lambda: _build_extra(cfg)
+    if source == 'twin':
+        return lambda: build_twin((cfg['a'][0], cfg['a'][1]), (cfg['b'][0], cfg['b'][1]))
     raise ValueError(source)
 
 
